@@ -209,7 +209,7 @@ impl Prop for C15 {
                "assumptions": ["printable = 0x20..=0x7E and 0x80..=0xFE: C0 codes, DEL and 0xFF are control codes of the underlying emulation", "blank-on-black cells after the last set cell of a row are not significant"]})
     }
     fn total(&mut self, ctx: &Ctx) -> u64 {
-        ctx.tier.pick(12_000, 1_000_000)
+        ctx.tier.pick(120_000, 1_000_000)
     }
     fn run_case(&mut self, ctx: &mut Ctx, k: u64) {
         let mut rng = ctx.rng(k);
